@@ -42,56 +42,17 @@ static J apply_transport(std::vector<std::vector<uint8_t>> &tus, const J &ops, c
     return fired;
 }
 
-void run_dec_world() {
-    SimConfig sc; sim_config_from_case(g_case, sc);
-    std::vector<std::vector<uint8_t>> orig = load_tus(g_case.gets("stream", ""));
-    if (orig.empty() && !g_case.geti("allow_empty", 0)) { g_result.set("outcome", "HARNESS_ERROR"); g_result.set("detail", "cannot load stream " + g_case.gets("stream", "")); finish(); }
-    if (g_case.has("max_tus") && orig.size() > (size_t)g_case.geti("max_tus", 0)) orig.resize((size_t)g_case.geti("max_tus", 0));
-    std::vector<std::vector<uint8_t>> tus = orig;
-    J fired = J::obj(); if (g_case.has("transport")) fired = apply_transport(tus, g_case["transport"], orig);
-    g_result.set("transport_fired", fired); g_result.set("tus", (uint64_t)tus.size());
+struct DecOut { J hist = J::arr(); J pics = J::arr(); uint64_t oh = fnv_init(); std::vector<std::vector<uint8_t>> outp; J sess = J::arr(); };
+// one or more decoder sessions over the given temporal units, driven by the calling (simulated) application task
+static void dec_sessions(const J &g_case, const std::vector<std::vector<uint8_t>> &tus, DecOut &O, bool count_allocs) {
     int W = (int)g_case.geti("w", 64), H = (int)g_case.geti("h", 64), bd = (int)g_case.geti("bd", 8), threads = (int)g_case.geti("threads", 1);
-    int annexb = (int)g_case.geti("annexb", 0); bool nulls = g_case.has("null_at");
+    int annexb = (int)g_case.geti("annexb", 0);
     int teardown_after = (int)g_case.geti("teardown_after", -1); // stop feeding after k TUs (mid-stream teardown)
     int sessions = (int)g_case.geti("sessions", 1);
-    J hist = J::arr(); J pics = J::arr(); uint64_t oh = fnv_init(); std::vector<std::vector<uint8_t>> outp; J sess = J::arr();
-
-    sim_start(&sc, world_fatal);
-    if (g_case.geti("null_calls", 0)) {
-        // C14: every public decoder entry point with NULL handle / NULL buffer arguments must return an error code
-        auto rec = [&](const char *name, long long e) { J r = J::arr(); r.push(std::string("null:") + name); r.push(e); hist.push(r); };
-        EbSvtAv1DecConfiguration cfg0; memset(&cfg0, 0, sizeof cfg0); EbComponentType *hh = nullptr; uint8_t b[8] = {0x12, 0, 0, 0, 0, 0, 0, 0};
-        EbBufferHeaderType ob; memset(&ob, 0, sizeof ob); EbAV1StreamInfo si; EbAV1FrameInfo fi; memset(&si, 0, sizeof si); memset(&fi, 0, sizeof fi);
-        sim_api_enter();
-        rec("dec_init_handle(NULL,cfg)", svt_av1_dec_init_handle(nullptr, nullptr, &cfg0));
-        rec("dec_init_handle(&h,NULL)", svt_av1_dec_init_handle(&hh, nullptr, nullptr)); if (hh) { svt_av1_dec_deinit_handle(hh); hh = nullptr; }
-        rec("dec_set_parameter(NULL,cfg)", svt_av1_dec_set_parameter(nullptr, &cfg0));
-        rec("dec_init(NULL)", svt_av1_dec_init(nullptr));
-        rec("dec_frame(NULL,..)", svt_av1_dec_frame(nullptr, b, 2, 0));
-        rec("dec_get_picture(NULL,..)", svt_av1_dec_get_picture(nullptr, &ob, &si, &fi));
-        rec("dec_deinit(NULL)", svt_av1_dec_deinit(nullptr));
-        rec("dec_deinit_handle(NULL)", svt_av1_dec_deinit_handle(nullptr));
-        sim_api_exit();
-        if (g_case.geti("null_calls", 0) >= 2) {
-            // with a live handle: NULL buffers
-            std::vector<uint8_t> cm(sizeof(EbSvtAv1DecConfiguration) + 64, 0); EbSvtAv1DecConfiguration *c2 = (EbSvtAv1DecConfiguration *)(cm.data() + 32); EbComponentType *h2 = nullptr;
-            sim_api_enter();
-            if (svt_av1_dec_init_handle(&h2, nullptr, c2) == EB_ErrorNone && h2) {
-                c2->threads = 1; c2->max_picture_width = W; c2->max_picture_height = H; c2->max_bit_depth = EB_EIGHT_BIT; c2->max_color_format = EB_YUV420; c2->num_p_frames = 1;
-                rec("dec_set_parameter(h,NULL)", svt_av1_dec_set_parameter(h2, nullptr));
-                if (svt_av1_dec_set_parameter(h2, c2) == EB_ErrorNone && svt_av1_dec_init(h2) == EB_ErrorNone) {
-                    rec("dec_frame(h,NULL,0)", svt_av1_dec_frame(h2, nullptr, 0, 0));
-                    rec("dec_get_picture(h,NULL,..)", svt_av1_dec_get_picture(h2, nullptr, &si, &fi));
-                    svt_av1_dec_deinit(h2);
-                }
-                svt_av1_dec_deinit_handle(h2);
-            }
-            sim_api_exit();
-        }
-    }
+    J &hist = O.hist; J &pics = O.pics; uint64_t &oh = O.oh; std::vector<std::vector<uint8_t>> &outp = O.outp; J &sess = O.sess;
     for (int s = 0; s < sessions; s++) {
         EbComponentType *h = nullptr; std::vector<uint8_t> cfgmem(sizeof(EbSvtAv1DecConfiguration) + 64, (uint8_t)g_case.geti("cfg_fill", 0)); EbSvtAv1DecConfiguration *cfg = (EbSvtAv1DecConfiguration *)(cfgmem.data() + 32);
-        sim_count_allocs(1);
+        if (count_allocs) sim_count_allocs(1);
         sim_api_enter(); EbErrorType e = svt_av1_dec_init_handle(&h, nullptr, cfg); sim_api_exit();
         { J r = J::arr(); r.push("dec_init_handle"); r.push((long long)e); r.push(sim_alloc_counter()); hist.push(r); }
         if (e == EB_ErrorNone && h) {
@@ -139,10 +100,70 @@ void run_dec_world() {
             }
             sim_api_enter(); e = svt_av1_dec_deinit_handle(h); sim_api_exit(); { J r = J::arr(); r.push("dec_deinit_handle"); r.push((long long)e); hist.push(r); }
         }
-        sim_count_allocs(0);
+        if (count_allocs) sim_count_allocs(0);
         const SimStats *st = sim_stats(); J l = J::obj(); l.set("live_blocks", st->lib_live_blocks); l.set("live_bytes", st->lib_live_bytes); l.set("threads_created", st->threads_created); l.set("threads_exited", st->threads_exited);
         l.set("threads_joined", st->threads_joined); l.set("mutexes_live", (long long)st->mutexes_created - (long long)st->mutexes_destroyed); l.set("sems_live", (long long)st->sems_created - (long long)st->sems_destroyed); sess.push(l);
     }
+}
+// W4: a decoder instance inside the multi-instance world (called on that instance's application task)
+void dec_instance_run(const J &inst, J &out) {
+    std::vector<std::vector<uint8_t>> tus = load_tus(inst.gets("stream", ""));
+    if (inst.has("max_tus") && tus.size() > (size_t)inst.geti("max_tus", 0)) tus.resize((size_t)inst.geti("max_tus", 0));
+    if (int d = (int)inst.geti("delay", 0)) sim_app_stall(d);
+    DecOut O; dec_sessions(inst, tus, O, false);
+    out.set("history", O.hist); out.set("pictures", O.pics); out.set("npictures", (uint64_t)O.pics.a.size()); out.set("output_hash", hex64(O.oh)); out.set("tus", (uint64_t)tus.size());
+    // instances are compared through the same two keys as encoder instances
+    out.set("stream_hash", hex64(O.oh)); out.set("recon_hash", std::string("dec"));
+}
+
+void run_dec_world() {
+    SimConfig sc; sim_config_from_case(g_case, sc);
+    std::vector<std::vector<uint8_t>> orig = load_tus(g_case.gets("stream", ""));
+    if (orig.empty() && !g_case.geti("allow_empty", 0)) { g_result.set("outcome", "HARNESS_ERROR"); g_result.set("detail", "cannot load stream " + g_case.gets("stream", "")); finish(); }
+    if (g_case.has("max_tus") && orig.size() > (size_t)g_case.geti("max_tus", 0)) orig.resize((size_t)g_case.geti("max_tus", 0));
+    std::vector<std::vector<uint8_t>> tus = orig;
+    J fired = J::obj(); if (g_case.has("transport")) fired = apply_transport(tus, g_case["transport"], orig);
+    g_result.set("transport_fired", fired); g_result.set("tus", (uint64_t)tus.size());
+    int W = (int)g_case.geti("w", 64), H = (int)g_case.geti("h", 64), bd = (int)g_case.geti("bd", 8), threads = (int)g_case.geti("threads", 1);
+    int annexb = (int)g_case.geti("annexb", 0); bool nulls = g_case.has("null_at");
+    int teardown_after = (int)g_case.geti("teardown_after", -1); // stop feeding after k TUs (mid-stream teardown)
+    int sessions = (int)g_case.geti("sessions", 1);
+    DecOut O; J &hist = O.hist; J &pics = O.pics; uint64_t &oh = O.oh; std::vector<std::vector<uint8_t>> &outp = O.outp; J &sess = O.sess;
+
+    sim_start(&sc, world_fatal);
+    if (g_case.geti("null_calls", 0)) {
+        // C14: every public decoder entry point with NULL handle / NULL buffer arguments must return an error code
+        auto rec = [&](const char *name, long long e) { J r = J::arr(); r.push(std::string("null:") + name); r.push(e); hist.push(r); };
+        EbSvtAv1DecConfiguration cfg0; memset(&cfg0, 0, sizeof cfg0); EbComponentType *hh = nullptr; uint8_t b[8] = {0x12, 0, 0, 0, 0, 0, 0, 0};
+        EbBufferHeaderType ob; memset(&ob, 0, sizeof ob); EbAV1StreamInfo si; EbAV1FrameInfo fi; memset(&si, 0, sizeof si); memset(&fi, 0, sizeof fi);
+        sim_api_enter();
+        rec("dec_init_handle(NULL,cfg)", svt_av1_dec_init_handle(nullptr, nullptr, &cfg0));
+        rec("dec_init_handle(&h,NULL)", svt_av1_dec_init_handle(&hh, nullptr, nullptr)); if (hh) { svt_av1_dec_deinit_handle(hh); hh = nullptr; }
+        rec("dec_set_parameter(NULL,cfg)", svt_av1_dec_set_parameter(nullptr, &cfg0));
+        rec("dec_init(NULL)", svt_av1_dec_init(nullptr));
+        rec("dec_frame(NULL,..)", svt_av1_dec_frame(nullptr, b, 2, 0));
+        rec("dec_get_picture(NULL,..)", svt_av1_dec_get_picture(nullptr, &ob, &si, &fi));
+        rec("dec_deinit(NULL)", svt_av1_dec_deinit(nullptr));
+        rec("dec_deinit_handle(NULL)", svt_av1_dec_deinit_handle(nullptr));
+        sim_api_exit();
+        if (g_case.geti("null_calls", 0) >= 2) {
+            // with a live handle: NULL buffers
+            std::vector<uint8_t> cm(sizeof(EbSvtAv1DecConfiguration) + 64, 0); EbSvtAv1DecConfiguration *c2 = (EbSvtAv1DecConfiguration *)(cm.data() + 32); EbComponentType *h2 = nullptr;
+            sim_api_enter();
+            if (svt_av1_dec_init_handle(&h2, nullptr, c2) == EB_ErrorNone && h2) {
+                c2->threads = 1; c2->max_picture_width = W; c2->max_picture_height = H; c2->max_bit_depth = EB_EIGHT_BIT; c2->max_color_format = EB_YUV420; c2->num_p_frames = 1;
+                rec("dec_set_parameter(h,NULL)", svt_av1_dec_set_parameter(h2, nullptr));
+                if (svt_av1_dec_set_parameter(h2, c2) == EB_ErrorNone && svt_av1_dec_init(h2) == EB_ErrorNone) {
+                    rec("dec_frame(h,NULL,0)", svt_av1_dec_frame(h2, nullptr, 0, 0));
+                    rec("dec_get_picture(h,NULL,..)", svt_av1_dec_get_picture(h2, nullptr, &si, &fi));
+                    svt_av1_dec_deinit(h2);
+                }
+                svt_av1_dec_deinit_handle(h2);
+            }
+            sim_api_exit();
+        }
+    }
+    dec_sessions(g_case, tus, O, true);
     const SimStats *st = sim_stats();
     J ledger = J::obj(); ledger.set("all_torn_down", true); ledger.set("threads_created", st->threads_created); ledger.set("threads_exited", st->threads_exited); ledger.set("threads_joined", st->threads_joined);
     ledger.set("live_blocks", st->lib_live_blocks); ledger.set("live_bytes", st->lib_live_bytes); ledger.set("mutexes_live", (long long)st->mutexes_created - (long long)st->mutexes_destroyed); ledger.set("sems_live", (long long)st->sems_created - (long long)st->sems_destroyed);
